@@ -1180,10 +1180,19 @@ def short_layer(opt, si, vi, m, mm):
     stops before the end of the measure (its last event is not written, nothing tied into or out of it)"""
     sl = opt.get("short")
     if sl and vi == 1 and [si, m] == list(sl) and mm and len(mm) > 1:
+        def tied_into(k):
+            # the event before k that can be tied to it: grace notes in between do not interrupt a tie
+            # (thorough tier, seed 7: [chord tie, grace, chord] was cut after the grace note, the expectation then
+            # joined the first chord with a note two measures later while the written file had no tie at all)
+            j = k - 1
+            while j >= 0 and mm[j]["t"] == "g":
+                j -= 1
+            return j >= 0 and bool(mm[j].get("tie"))
+
         k = len(mm) - 1
-        while k > 0 and (mm[k]["t"] == "g" or mm[k].get("tie") or mm[k - 1].get("tie") or mm[k].get("tup") or mm[k]["t"] == "s"):
+        while k > 0 and (mm[k]["t"] == "g" or mm[k].get("tie") or tied_into(k) or mm[k].get("tup") or mm[k]["t"] == "s"):
             k -= 1
-        if k > 0 and not mm[k].get("tup") and mm[k]["t"] in ("n", "r") and not mm[k].get("tie") and not mm[k - 1].get("tie"):
+        if k > 0 and not mm[k].get("tup") and mm[k]["t"] in ("n", "r") and not mm[k].get("tie") and not tied_into(k):
             # only a plain trailing run may be cut, and only if nothing later in the measure is tied
             if all(not e.get("tie") for e in mm[k:]) and all(not e.get("tup") for e in mm[k:]):
                 return mm[:k]
